@@ -207,14 +207,14 @@ def gen_check(spec, mod, seed, tier="quick"):
     randoms = 60 if tier == "quick" else 600
     f_iter = spec.item_name("iter")
     if f_iter:
-        w("        out.guard(\"C06\", \"iter\", |out| { check_iterator(\"C06\", \"iter()\", &|| %s::%s().map(disc), &all, seed, %d, %d, out); });" % (En, f_iter, depth, randoms))
+        w("        out.guard(\"C06\", \"iter\", |out| { check_iterator(\"C06\", \"iter()\", &|| %s::%s(), &disc, &all, seed, %d, %d, out); });" % (En, f_iter, depth, randoms))
     f_range = spec.item_name("range")
     if f_range and f_iter:
         if n <= 9:
             w("        out.guard(\"C07\", \"range\", |out| { for a in 0..all.len() { for b in 0..all.len() {")
             w("            let want: Vec<i128> = if a <= b { all[a..=b].to_vec() } else { Vec::new() };")
             w("            let what = format!(\"range({},{})\", ORACLE[a].3, ORACLE[b].3);")
-            w("            check_iterator(\"C07\", &what, &|| %s::%s(ORACLE[a].1, ORACLE[b].1).map(disc), &want, seed ^ ((a * 131 + b) as u64), 4, 6, out);" % (En, f_range))
+            w("            check_iterator(\"C07\", &what, &|| %s::%s(ORACLE[a].1, ORACLE[b].1), &disc, &want, seed ^ ((a * 131 + b) as u64), 4, 6, out);" % (En, f_range))
             w("        } } });")
         else:
             pairs = set()
@@ -232,7 +232,7 @@ def gen_check(spec, mod, seed, tier="quick"):
             w("        out.guard(\"C07\", \"range\", |out| { for &(a, b) in PAIRS {")
             w("            let want: Vec<i128> = if a <= b { all[a..=b].to_vec() } else { Vec::new() };")
             w("            let what = format!(\"range({},{})\", ORACLE[a].3, ORACLE[b].3);")
-            w("            check_iterator(\"C07\", &what, &|| %s::%s(ORACLE[a].1, ORACLE[b].1).map(disc), &want, seed ^ ((a * 131 + b) as u64), 3, 4, out);" % (En, f_range))
+            w("            check_iterator(\"C07\", &what, &|| %s::%s(ORACLE[a].1, ORACLE[b].1), &disc, &want, seed ^ ((a * 131 + b) as u64), 3, 4, out);" % (En, f_range))
             w("        } });")
             if n <= 400:
                 w("        out.guard(\"C07\", \"range-all-pairs\", |out| { for a in 0..all.len() { for b in 0..all.len() {")
@@ -245,7 +245,7 @@ def gen_check(spec, mod, seed, tier="quick"):
                 w("        } } });")
     f_names = spec.item_name("names")
     if f_names:
-        w("        out.guard(\"C08\", \"names\", |out| { check_iterator(\"C08\", \"names()\", &|| %s::%s(), &all_names, seed, %d, %d, out); });" % (En, f_names, depth, randoms // 2))
+        w("        out.guard(\"C08\", \"names\", |out| { check_iterator(\"C08\", \"names()\", &|| %s::%s(), &|x: &'static str| x, &all_names, seed, %d, %d, out); });" % (En, f_names, depth, randoms // 2))
         w("        out.eq(\"C08\", \"names().len()\", &0, %s::%s().len(), all.len());" % (En, f_names))
         if f_iter and f_as:
             w("        out.guard(\"C08\", \"zip\", |out| { for (v, nm) in %s::%s().zip(%s::%s()) { out.eq(\"C08\", \"iter().zip(names())\", &disc(v), nm, v.%s()); } });" % (En, f_iter, En, f_names, f_as))
@@ -340,6 +340,7 @@ def run_instances(scratch, specs, seed=1, tier="quick", target=None, name="inst"
             break
         # attribute compile errors to corpus modules by line number; drop those modules and retry
         bad = {}
+        in_check_only = {}
         for blk in re.split(r"\n(?=error)", err):
             if not blk.startswith("error"):
                 continue
@@ -349,13 +350,20 @@ def run_instances(scratch, specs, seed=1, tier="quick", target=None, name="inst"
             ln = int(m.group(1))
             for (a, b, modname) in ranges:
                 if a <= ln <= b:
-                    # an error inside the generated oracle driver that is not one of the typed
-                    # signature probes (C19) is a defect of the harness, not of the macro
                     in_check = ln >= check_start.get(modname, 10 ** 9)
-                    if in_check and not re.search(r"let _p:|__req::|let _e:|const _C:", blk):
-                        res["build_error"] = "error inside the generated oracle driver of %s (harness defect):\n%s" % (modname, blk[:2000])
-                        return res
-                    bad.setdefault(modname, blk.strip()[:1500])
+                    is_probe = re.search(r"let _p:|__req::|let _e:|const _C:", blk) is not None
+                    if in_check and not is_probe:
+                        in_check_only.setdefault(modname, blk.strip()[:2000])
+                    else:
+                        # prefer a typed-probe / declaration error as the module's reason
+                        if modname not in bad or is_probe:
+                            bad[modname] = blk.strip()[:1500]
+        # an error inside the generated oracle driver with no probe/declaration error in the same module
+        # is a defect of the harness, not of the macro
+        for modname, blk in in_check_only.items():
+            if modname not in bad:
+                res["build_error"] = "error inside the generated oracle driver of %s (harness defect):\n%s" % (modname, blk)
+                return res
         if not bad:
             res["build_error"] = err[-8000:]
             return res
